@@ -167,7 +167,7 @@ mod verif_rc_canary {
         if o.status == "failed" and o.kind == "proof":
             o.output = out[-8000:]
             nplay += 1
-            if nplay > 2:
+            if nplay > 1:
                 continue
             try:
                 o.playback = kani.playback(crate, o.name, "rc")
